@@ -38,7 +38,11 @@ impl Runner {
         let mut detail: Vec<Value> = Vec::new();
         for &(tolerant, cached) in &self.configs {
             arm_watchdog(self.secs);
-            let o = exercise(bytes, tolerant, cached, password);
+            // on a thread with the default stack of spawned threads (2 MiB), which is what a caller that reads documents off
+            // the main thread has; VERIF_MAIN_STACK=1 keeps the calls on the main thread
+            let o = if std::env::var("VERIF_MAIN_STACK").is_ok() { exercise(bytes, tolerant, cached, password) } else {
+                std::thread::scope(|sc| std::thread::Builder::new().stack_size(2 << 20).spawn_scoped(sc, || exercise(bytes, tolerant, cached, password)).expect("thread").join().expect("exercise thread"))
+            };
             arm_watchdog(0);
             ncalls += o.calls.len();
             loaded |= o.calls.first().map(|c| c.1 == "ok").unwrap_or(false);
